@@ -1,5 +1,5 @@
 From Coq Require Import Arith NArith Bool Lia List.
-Require Import Canon SemTk TableProto BddBase BddIte Glue History RunProto.
+Require Import Canon SemTk TableProto BddBase BddIte Glue.
 Import ListNotations.
 Local Open Scope N_scope.
 
